@@ -46,6 +46,7 @@ META = {
 }
 
 ATOL = 1e-7
+HEAVY = {"ModExp", "Multiplier", "OutAdder", "OutPoly", "OutMultiplier", "SignedOutMultiplier", "SignedOutSquare", "OutSquare", "PhaseAdder"}
 
 
 # ------------------------------------------------------------------------------------------ helpers
@@ -123,9 +124,9 @@ def build_specs(qp, r, quick):
     """returns a list of builder callables name -> Spec (each call draws a fresh random instance)."""
     maxn = 4 if quick else 5
 
-    def adder():
+    def adder(cap=None):
         L = Layout(r)
-        n = int(r.integers(1, maxn + 1))
+        n = int(r.integers(1, (cap or maxn) + 1))
         mod, mod_arg = pick_mod(r, n)
         k = int(r.integers(-2 * mod, 2 * mod + 1))
         xw = L.take(n)
@@ -154,9 +155,9 @@ def build_specs(qp, r, quick):
                     lambda v: {"x": (v["x"] + k) % mod}, {"k": k, "mod": mod, "n": n},
                     pre=lambda: [qp.QFT(wires=xw)], post=lambda: [qp.adjoint(qp.QFT(wires=xw))], matrix_ok=False)
 
-    def semi_adder():
+    def semi_adder(cap=None):
         L = Layout(r)
-        nx, ny = int(r.integers(1, maxn + 1)), int(r.integers(1, maxn + 1))
+        nx, ny = int(r.integers(1, (cap or maxn) + 1)), int(r.integers(1, (cap or maxn) + 1))
         xw, yw = L.take(nx), L.take(ny)
         need = max(0, ny - 1)
         c = r.random()
@@ -169,8 +170,8 @@ def build_specs(qp, r, quick):
 
     def out_adder():
         L = Layout(r)
-        m = 3 if quick else 4
-        nx, ny, no = int(r.integers(1, m + 1)), int(r.integers(1, m + 1)), int(r.integers(1, m + 1))
+        m = 2 if quick else 3
+        nx, ny, no = int(r.integers(1, m + 1)), int(r.integers(1, m + 1)), int(r.integers(1, m + 2))
         mod, mod_arg = pick_mod(r, no)
         xw, yw, ow = L.take(nx), L.take(ny), L.take(no)
         ww = L.take(2) if (mod != 2**no or r.random() < 0.2) else []
@@ -180,7 +181,7 @@ def build_specs(qp, r, quick):
 
     def multiplier():
         L = Layout(r)
-        n = int(r.integers(1, maxn + 1))
+        n = int(r.integers(1, (3 if quick else 4) + 1))
         mod, mod_arg = pick_mod(r, n)
         k = coprime_to(r, mod)
         if r.random() < 0.3:
@@ -192,13 +193,13 @@ def build_specs(qp, r, quick):
 
     def out_multiplier():
         L = Layout(r)
-        m = 3
-        nx, ny, no = int(r.integers(1, m + 1)), int(r.integers(1, m + 1)), int(r.integers(1, (4 if quick else 5) + 1))
+        m = 2 if quick else 3
+        nx, ny, no = int(r.integers(1, m + 1)), int(r.integers(1, m + 1)), int(r.integers(1, (3 if quick else 4) + 1))
         mod, mod_arg = pick_mod(r, no)
         zeroed = bool(r.random() < 0.4)
         xw, yw, ow = L.take(nx), L.take(ny), L.take(no)
         c = r.random()
-        nwork = (2 if mod != 2**no else 0) if c < 0.35 else int(r.integers(2 if mod != 2**no else 0, no + ny + 4))
+        nwork = (2 if mod != 2**no else 0) if c < 0.35 else int(r.integers(2 if mod != 2**no else 0, (no + ny + 4) if not quick else 6))
         ww = L.take(nwork)
 
         def dom(v):
@@ -210,21 +211,28 @@ def build_specs(qp, r, quick):
 
     def signed_out_multiplier():
         L = Layout(r)
-        nx, ny, no = int(r.integers(1, 4)), int(r.integers(1, 4)), int(r.integers(1, (4 if quick else 6) + 1))
+        nx, ny, no = int(r.integers(1, 4)), int(r.integers(1, 4)), int(r.integers(1, (3 if quick else 5) + 1))
         zeroed = bool(r.random() < 0.5)
         xw, yw, ow = L.take(nx), L.take(ny), L.take(no)
         nwork = 2 if zeroed else 2 * no + 1
         if r.random() < 0.3:
             nwork += int(r.integers(0, 3))
         ww = L.take(nwork)
+        def cls_som(path, why, wrong, allwrong):
+            if why.startswith("raise:") and (no == 1 or nx == 1 or ny == 1):
+                return "SignedOutMultiplier:one-wire-register-raises"
+            if why in ("value", "dirty-work", "superposition") and wrong and all(signed(w["x"], nx) < 0 or signed(w["y"], ny) < 0 for w in wrong):
+                return "SignedOutMultiplier:negative-operand"
+            return None
+
         return Spec("SignedOutMultiplier", lambda: qp.SignedOutMultiplier(xw, yw, ow, work_wires=ww, output_wires_zeroed=zeroed),
                     [("x", xw), ("y", yw), ("o", ow)], ww, lambda v: (not zeroed or v["o"] == 0),
                     lambda v: {"o": (v["o"] + signed(v["x"], nx) * signed(v["y"], ny)) % 2**no},
-                    {"nx": nx, "ny": ny, "no": no, "zeroed": zeroed, "nwork": nwork}, pool=3)
+                    {"nx": nx, "ny": ny, "no": no, "zeroed": zeroed, "nwork": nwork}, pool=3, classifier=cls_som)
 
     def mod_exp():
         L = Layout(r)
-        nx, no = int(r.integers(1, 4)), int(r.integers(1, 4 if quick else 5))
+        nx, no = int(r.integers(1, 3 if quick else 4)), int(r.integers(1, 3 if quick else 4))
         mod, mod_arg = pick_mod(r, no)
         base = coprime_to(r, mod, 1, max(3, 2 * mod))
         xw, ow = L.take(nx), L.take(no)
@@ -235,7 +243,7 @@ def build_specs(qp, r, quick):
 
     def out_square():
         L = Layout(r)
-        n, m = int(r.integers(1, 4)), int(r.integers(1, (5 if quick else 7)))
+        n, m = int(r.integers(1, 4)), int(r.integers(1, (4 if quick else 6)))
         zeroed = bool(r.random() < 0.5)
         xw, ow = L.take(n), L.take(m)
         need = min(n + 1, m) if zeroed else m
@@ -246,20 +254,27 @@ def build_specs(qp, r, quick):
 
     def signed_out_square():
         L = Layout(r)
-        n, m = int(r.integers(1, 4)), int(r.integers(1, (5 if quick else 7)))
+        n, m = int(r.integers(1, 4)), int(r.integers(1, (4 if quick else 6)))
         zeroed = bool(r.random() < 0.5)
         xw, ow = L.take(n), L.take(m)
         need = min(n, m) if zeroed else m
         ww = L.take(need + (int(r.integers(0, 3)) if r.random() < 0.3 else 0))
+        def cls_sos(path, why, wrong, allwrong):
+            if why.startswith("raise:") and n == 1:
+                return "SignedOutSquare:one-wire-register-raises"
+            if why in ("value", "dirty-work", "superposition") and wrong and all(signed(w["x"], n) < 0 for w in wrong):
+                return "SignedOutSquare:negative-operand"
+            return None
+
         return Spec("SignedOutSquare", lambda: qp.SignedOutSquare(xw, ow, ww, output_wires_zeroed=zeroed), [("x", xw), ("o", ow)], ww,
                     lambda v: (not zeroed or v["o"] == 0), lambda v: {"o": (v["o"] + signed(v["x"], n) ** 2) % 2**m},
-                    {"n": n, "m": m, "zeroed": zeroed, "nwork": len(ww)}, pool=3)
+                    {"n": n, "m": m, "zeroed": zeroed, "nwork": len(ww)}, pool=3, classifier=cls_sos)
 
     def out_poly():
         L = Layout(r)
-        nvars = int(r.integers(1, 4))
+        nvars = int(r.integers(1, 3 if quick else 4))
         sizes = [int(r.integers(1, 3 if nvars > 1 else 4)) for _ in range(nvars)]
-        no = int(r.integers(1, 4 if quick else 5))
+        no = int(r.integers(1, 4))
         mod, mod_arg = pick_mod(r, no)
         # random integer polynomial: sum of monomials with degrees <= 2 per variable
         monos = []
@@ -285,9 +300,17 @@ def build_specs(qp, r, quick):
         def dom(v):
             return all(v[nm] < mod for nm in names) and v["o"] < mod
 
+        const = sum(c for c, e in monos if all(x == 0 for x in e))
+
+        def cls_poly(path, why, wrong, allwrong):
+            # the constant term is added by a PhaseAdder without `mod`: wrong as soon as mod != 2^n and the constant is non-zero
+            if why in ("value", "superposition", "dirty-work") and mod != 2**no and const % mod != 0:
+                return "OutPoly:constant-term-not-modular"
+            return None
+
         return Spec("OutPoly", lambda: qp.OutPoly(f, regs, ow, mod=mod_arg, work_wires=ww), list(zip(names, regs)) + [("o", ow)], ww, dom,
                     lambda v: {"o": (v["o"] + f(*[v[nm] for nm in names])) % mod},
-                    {"monomials": monos, "sizes": sizes, "no": no, "mod": mod, "mod_arg": mod_arg})
+                    {"monomials": monos, "sizes": sizes, "no": no, "mod": mod, "mod_arg": mod_arg}, classifier=cls_poly)
 
     def comparator():
         L = Layout(r)
@@ -303,17 +326,30 @@ def build_specs(qp, r, quick):
             flip = (v["c"] >= value) if geq else (v["c"] < value)
             return {"t": v["t"] ^ int(flip)}
 
-        return Spec("IntegerComparator", lambda: qp.IntegerComparator(value, geq=geq, wires=cw + tw, **kw), [("c", cw), ("t", tw)], ww,
-                    lambda v: True, exp, {"n": n, "value": value, "geq": geq, "nwork": nwork}, pool=0)
+        def cls_cmp(path, why, wrong, allwrong):
+            if why.startswith("raise:") and (not geq) and value > 2**n:
+                return "IntegerComparator:lt-value-beyond-register-raises"
+            return None
 
-    def incrementer():
+        return Spec("IntegerComparator", lambda: qp.IntegerComparator(value, geq=geq, wires=cw + tw, **kw), [("c", cw), ("t", tw)], ww,
+                    lambda v: True, exp, {"n": n, "value": value, "geq": geq, "nwork": nwork}, pool=0, classifier=cls_cmp)
+
+    def incrementer(cap=None):
         L = Layout(r)
-        n = int(r.integers(1, maxn + 3))
+        n = int(r.integers(1, (cap or (maxn + 2)) + 1))
         xw = L.take(n)
         nwork = int(r.choice([0, max(0, n - 2), n, int(r.integers(0, n + 1))]))
         ww = L.take(nwork)
-        return Spec("Incrementer", lambda: qp.Incrementer(xw, ww), [("x", xw)], ww, lambda v: True, lambda v: {"x": (v["x"] + 1) % 2**n},
-                    {"n": n, "nwork": nwork}, pool=0)
+        def cls_inc(path, why, wrong, allwrong, extra_ctrl=0):
+            # the fallback rule (too few work wires) never flips the most significant bit: exactly the inputs whose lower n-1 bits are all 1 fail
+            if why == "value" and nwork + 1 < n + extra_ctrl and wrong and all((w["x"] + 1) % 2 ** (n - 1) == 0 for w in wrong):
+                return "Incrementer:fallback-msb-not-flipped"
+            return None
+
+        sp = Spec("Incrementer", lambda: qp.Incrementer(xw, ww), [("x", xw)], ww, lambda v: True, lambda v: {"x": (v["x"] + 1) % 2**n},
+                  {"n": n, "nwork": nwork}, pool=0, classifier=cls_inc)
+        sp.cls_inc = cls_inc
+        return sp
 
     def temporary_and():
         L = Layout(r)
@@ -338,7 +374,7 @@ def build_specs(qp, r, quick):
 
     def controlled(inner):
         def make():
-            s = inner()
+            s = inner(3 if quick else 4)
             nc = int(r.integers(1, 3))
             cw = [f"ctl{i}" for i in range(nc)]
             cv = [int(r.integers(0, 2)) for _ in range(nc)]
@@ -351,8 +387,15 @@ def build_specs(qp, r, quick):
             def dom(v):
                 return s.domain(v)
 
+            cls = None
+            if getattr(s, "cls_inc", None) is not None:
+                inner_cls = s.cls_inc
+
+                def cls(path, why, wrong, allwrong):
+                    return inner_cls(path, why, wrong, allwrong, extra_ctrl=nc)
+
             return Spec(f"C({s.name})", lambda: qp.ctrl(base_make(), control=cw, control_values=cv), [("ctrl", cw)] + s.regs, s.work, dom, exp,
-                        {**s.hyper, "control_values": cv}, pool=s.pool + 2, pre=s.pre, post=s.post, matrix_ok=False)
+                        {**s.hyper, "control_values": cv}, pool=s.pool + 2, pre=s.pre, post=s.post, matrix_ok=False, classifier=cls)
         return make
 
     builders = {
@@ -488,6 +531,7 @@ def make_engine(ctx, qp):
             mech = None
             if spec.classifier is not None:
                 mech = spec.classifier(path, why, wrong, len(bad) == len(exp_index))
+            ctx.note_add("violation_mechs", mech or f"{why}:{spec.name}:{path_kind(path)}", cap=200)
             ctx.violation("arith.basis", f"{spec.name} [{path}] input {v_in}: {msg} ({len(bad)}/{len(exp_index)} domain inputs wrong)",
                           case={**info, "path": path, "input": v_in, "wrong_inputs": wrong[:16]},
                           observed={"registers": v_got, "work_bits": rest, "amp": complex(gamp)},
@@ -506,9 +550,12 @@ def make_engine(ctx, qp):
                 except AllocationError:
                     continue
                 except Exception as e:  # noqa: BLE001
+                    if type(e).__name__ == "DecompositionError" and "work wires" in str(e):
+                        continue   # graph mode: not enough free device wires for dynamic allocation -> bigger pool
                     mech = None
                     if spec.classifier is not None:
                         mech = spec.classifier(path, f"raise:{type(e).__name__}", [], True)
+                    ctx.note_add("violation_mechs", mech or f"raise:{spec.name}:{path_kind(path)}:{type(e).__name__}", cap=200)
                     ctx.violation("arith.basis", f"{spec.name} [{path}]: raised {type(e).__name__}: {str(e)[:300]}", case={**info, "path": path},
                                   mech=mech or f"raise:{spec.name}:{path_kind(path)}:{type(e).__name__}")
                     return
@@ -518,8 +565,10 @@ def make_engine(ctx, qp):
             ctx.cover(f"{spec.name}:{path_kind(path)}")
             judge(states, N, path)
 
+        heavy = spec.name in HEAVY
         # ---- native
-        attempt("native", lambda: [op])
+        if not heavy or r.random() < 0.5:
+            attempt("native", lambda: [op])
         # ---- every applicable registered rule
         try:
             rules = list(qp.list_decomps(op))
@@ -542,10 +591,10 @@ def make_engine(ctx, qp):
 
             attempt(f"rule:{rule_name(rule)}", queue_rule)
         # ---- decomposition()
-        if getattr(op, "has_decomposition", False) and r.random() < 0.5:
+        if getattr(op, "has_decomposition", False) and not heavy and r.random() < 0.5:
             attempt("decomposition", lambda: op.decomposition())
         # ---- graph-enabled device path
-        if r.random() < 0.3:
+        if r.random() < (0.3 if not heavy else (0.0 if ctx.quick else 0.15)):
             try:
                 qp.decomposition.enable_graph()
                 attempt("native-graph", lambda: [spec.make()])
@@ -558,6 +607,7 @@ def make_engine(ctx, qp):
                 M = np.asarray(qp.matrix(op, wire_order=base_wires))
             except Exception as e:  # noqa: BLE001
                 ctx.count(f"matrix_unavailable:{spec.name}:{type(e).__name__}")
+                ctx.note_add("matrix_errors", f"{spec.name}: {type(e).__name__}: {str(e)[:120]}", cap=20)
                 M = None
             if M is not None:
                 ctx.ev("arith.matrix")
@@ -612,8 +662,8 @@ def run(ctx):
     rng = ctx.rng
     builders = build_specs(qp, rng, ctx.quick)
     names = sorted(builders)
-    per = 3 if ctx.quick else 14   # instances per template for this shard
-    order = [nm for _ in range(per) for nm in names]
+    per = 3 if ctx.quick else 14   # instances per (light) template for this shard; heavy (QFT based) templates get about half
+    order = [nm for rep in range(per) for nm in names if not (nm in HEAVY and (rep % 2 == 1 or (ctx.quick and rep > 0)))]
     for i, nm in enumerate(order):
         if not ctx.more():
             break
